@@ -49,7 +49,7 @@ class PrintStatementConfig:
             PrintStatementConfig instance with values from dictionary
         """
         # Get language-specific config if available
-        if language and language in config:
+        if language and isinstance(config.get(language), dict):
             lang_config = config[language]
             allow_in_scripts = lang_config.get(
                 "allow_in_scripts", config.get("allow_in_scripts", True)
